@@ -252,6 +252,14 @@ func (m *Machine) binop(op token.Token, t types.Type, x, y Value, yt types.Type)
 		}
 		return m.not(m.equals(t, x, y))
 	}
+	// arithmetic with an opaque float stays opaque (model_float.go); comparisons
+	// and conversions on it still end the path.
+	if _, ox := x.(opaqueFloat); ox || isOpaqueFloat(y) {
+		switch op {
+		case token.ADD, token.SUB, token.MUL, token.QUO:
+			return opaqueFloat{}
+		}
+	}
 	switch xv := x.(type) {
 	case float64:
 		yv := y.(float64)
@@ -548,6 +556,10 @@ func (m *Machine) convert(src, dst types.Type, x Value) Value {
 		}
 		return f
 	case isFloat(src) && dInt:
+		if isOpaqueFloat(x) {
+			// integer part of an unknown float: any value of the target type
+			return m.fresh("opaque.float2int", "int", dw, dsigned)
+		}
 		f := x.(float64)
 		if dsigned {
 			return canon(uint64(int64(f)), dw, true)
